@@ -173,8 +173,8 @@ REG.add(Contract('data.TexArgs.__init__', case='list', types={'self': 'TexArgs',
 REG.add(Contract('data.TexArgs.__init__', case='copy', types={'self': 'TexArgs', 'args': 'TexArgs'},
                  modifies=['self.items'], props=['C18'],
                  requires=[A('groups-or-commands', 'allargs(args.items)')],
-                 ensures=[P(['C18'], 'items', 'self.items == args.items')] + _AA, trusted=True,
-                 note='iterating another TexArgs (list.__iter__ of the argument) is not modelled'))
+                 ensures=[P(['C18'], 'items', 'self.items == args.items')] + _AA,
+                 note='the argument is read as its item list (iteration of the list subclass)'))
 
 REG.add(Contract(
     'data.TexArgs.insert', case='expr', types={'self': 'TexArgs', 'i': 'int', 'arg': 'E'}, modifies=['self.items'],
